@@ -71,4 +71,12 @@ def run(tier, seed, prop='C01', units=('Gillespie_SIR',), fast=True, sis=False):
                        'main loop (neighbour loops carry prefix forms), for graphs of any order; hence in EVERY reachable state the '
                        'argument of expovariate is the total rate of the chain and the branch threshold is recovery/total. '
                        'fast_SIR: what it hands to fast_nonMarkov_SIR is specified at the delegation site; handlers and the event loop by their contracts.')
+    if prop == 'C01':
+        from ..replay import sim_native
+        rep.bounded_is_supplementary = True
+        rep.add(util.native_ob('native:SIR-state-distribution-vs-master-equation', 'EoN/simulation.py:fast_SIR / Gillespie_SIR', sim_native.c01_native,
+                               'fixed seeds, 6000 runs per configuration: 2 simulators x 5 rate / weight configurations (incl. the constant-rate fast path, gamma = 0) x 3 initial conditions '
+                               '(one seed; a seed next to an initially recovered node, tmin = -3.5; two adjacent seeds) on a 4-node graph; distribution of the full state vector at tmin+1.6 against the '
+                               '81-state master equation, 6 standard errors'))
+        return rep, util.native_replayer
     return rep, None
